@@ -622,7 +622,16 @@ Fixpoint c19_walk (k : Z) (pend : list (Z * smsg)) (es : list event) (os : list 
   match es, os with
   | e :: es', o :: os' =>
       match e, o with
-      | EvTx _ msgs, ITx COk _ => c19_walk (k + 1) (pend ++ map (fun m => (k, m)) msgs) es' os'
+      | EvTx _ msgs, ITx COk _ =>
+          (* a request id that is cancelled, or cancelled and recorded again, later in the same block (or transaction):
+             the record pending at the end of the block is the LAST one recorded under it *)
+          let same_req (m : smsg) (x : Z * smsg) :=
+            match snd x, m with
+            | MRecord _ tid req _ _ _ _ _, MRecord _ tid' req' _ _ _ _ _
+            | MRecord _ tid req _ _ _ _ _, MCancel _ tid' req' => (tid =? tid') && bytes_eqb req req'
+            | _, _ => false
+            end in
+          c19_walk (k + 1) (fold_left (fun p m => filter (fun x => negb (same_req m x)) p ++ [(k, m)]) msgs pend) es' os'
       | EvEnd _, IEnd _ _ (Some sn) =>
           map (fun x : Z * smsg => (fst x, 25)) (filter (fun x : Z * smsg => negb (c19_one sn (snd x))) pend)
           ++ c19_walk (k + 1) [] es' os'
